@@ -1,6 +1,7 @@
 from .. import cases
-from .common import run_tables
+from .common import run_carrier_sweep, run_tables
 
 
 def run(ck):
     run_tables(ck, 'C08.climatology', cases.climatology)
+    run_carrier_sweep(ck, 'C08.climatology', cases.climatology, n_max=5, per_class=2)
